@@ -43,6 +43,7 @@ def build(code, ident, auth, attrs, secret=None, rqauth=None, sign=True, msgauth
         hdr_auth = bytes(16)
     else:
         hdr_auth = auth
+    hdr_auth = (bytes(hdr_auth) + bytes(16))[:16]
     pkt = bytearray(bytes([code, ident]) + struct.pack(">H", ln & 0xffff) + hdr_auth + body)
     if secret is not None and msgauth and raw_attrs is None:
         off = 20
